@@ -38,7 +38,7 @@ RULE = ('chain: random source volume (shape 1..6 per axis, 48 signed axis permut
         '(repeated counts, integer-then-float and narrow-then-wide orders), each answer against the exact oracle and a fresh '
         'object, object state and input arrays must not change; chain also draws the spelling of the target / source shape '
         '(tuple / list / np.int64 / ndarray / ceil().astype(int)) and the memory layout of the source array; padspell: pad widths '
-        'as int / np.int64 / np.int32 / np.int16 in lists / tuples, single and pair form.  Non-trivial = the call reaches the comparison of interest (not an early refusal); '
+        'as int / np.int64 / np.int32 / np.int16 / np.uint8 / np.uint16 in lists / tuples, single and pair form.  Non-trivial = the call reaches the comparison of interest (not an early refusal); '
         'distinct by (stream, ops / perturbation kind, shapes, orientation class, outcome).')
 ASSUMPTIONS = [
     'spacing = norm of an affine column and unit vector = column / norm return the factors the geometry was built from '
@@ -1056,10 +1056,11 @@ def run_padspell_case(ctx, i, reqs, pending):
     kind = r.choice(['geometry', 'volume'])
     obj = make_geometry(g, r.choice(SHAPE_SPELLINGS)) if kind == 'geometry' else make_volume(g, arr, 0, r.choice(LAYOUTS))
     form = r.choice(['pairs', 'pairs', 'singles'])
-    # (unsigned numpy widths are left out: `-np.uint8(1)` wraps in `_prepare_pad_width` on the pinned tree, reported to C08)
-    elem = r.choice(['int', 'np.int64', 'np.int64', 'np.int32', 'np.int16'])
+    # (unsigned numpy widths: `-np.uint8(1)` wrapped in `_prepare_pad_width` on the pinned tree; fixed by C08 in /repo dd02312)
+    elem = r.choice(['int', 'np.int64', 'np.int64', 'np.int32', 'np.int16', 'np.uint8', 'np.uint16'])
     cont = r.choice(['list', 'tuple'])
-    conv = {'int': int, 'np.int64': np.int64, 'np.int32': np.int32, 'np.int16': np.int16}[elem]
+    conv = {'int': int, 'np.int64': np.int64, 'np.int32': np.int32, 'np.int16': np.int16, 'np.uint8': np.uint8,
+            'np.uint16': np.uint16}[elem]
     raw = [(r.choice([0, 0, 1, 2, 3]), r.choice([0, 1, 2])) for _ in range(3)]
     if form == 'singles':
         raw = [(b, b) for b, _ in raw]
